@@ -379,6 +379,30 @@ def config_text(section):
     return t[:-1] + '  ' + section + '\n}\n'
 
 
+def _exception_reaching_reload(cfg):
+    """The class of the last exception that propagated into Configuration.reload() (the public entry point, which turns
+    both the deliberate configuration Error and anything else into the same error text), None if none did.  Observed
+    with a trace function, so that no private method of Configuration has to be named."""
+    import sys
+
+    seen = []
+
+    def tracer(frame, event, arg):
+        if event == 'call':
+            return tracer if '/exabgp/' in frame.f_code.co_filename else None
+        if event == 'exception' and frame.f_code.co_name == 'reload' and frame.f_code.co_filename.endswith('configuration/configuration.py'):
+            seen.append(arg[0])
+        return tracer
+
+    old = sys.gettrace()
+    sys.settrace(tracer)
+    try:
+        cfg.reload()
+    finally:
+        sys.settrace(old)
+    return seen[-1] if seen else None
+
+
 def run_config(section):
     """-> dict(status=accepted|refused|exception|laundered|no-message, ...)"""
     from exabgp.configuration.configuration import Configuration
@@ -407,17 +431,13 @@ def run_config(section):
         # this text: find out which one it was by running what reload() runs
         reset_state()
         c2 = Configuration([path])
+        under = None
         try:
-            guarded(c2._reload)
-            under = None
+            under = guarded(_exception_reaching_reload, c2)
         except Hang:
             under = None
-        except Error:
-            under = 'Error'
-        except Exception as e:  # noqa: BLE001
-            under = type(e).__name__ if not isinstance(e, ValueError) or type(e) is not ValueError else 'ValueError'
-            if isinstance(e, ValueError):
-                under = 'ValueError'
+        if under is not None:
+            under = 'Error' if issubclass(under, Error) else 'ValueError' if issubclass(under, ValueError) else under.__name__
         if under not in ('Error', 'ValueError', None):
             return dict(status='laundered', etype=under, msg=msg.replace('\n', ' | ')[:200], routes=None)
     return dict(status='refused', how='located', msg=msg.replace('\n', ' | ')[:200], routes=None)
